@@ -14,9 +14,10 @@ EXTRA_TARGETS = ["MG.DriverEng"]
 THEOREMS = {
     "MG.Proofs.C09": [
         "MG.C09.stale_backward_neg",
+        "MG.C09.witness_value",
         "MG.C09.cleared_input_raises",
         "MG.C09.stale_backward_safe_partial",
-    ]
+    ],
 }
 
 GEN = dict(inplace=True, p_inplace=0.25, p_view=0.15, p_fail=0.0, p_const=0.05, n_stmts=11, multi_back=True)
